@@ -472,7 +472,7 @@ func c09Work(c *engine.Ctx) {
 func init() {
 	register(&engine.Check{
 		ID: "C09", Level: "exploration",
-		Rule: "documents = every sequence of ≤2 (3) constructs from a catalogue of ~75 (text incl. stray '<', comments of every closing form, bogus comments, doctype in three cases, CDATA, end tags with whitespace, start tags × 13 attribute forms × closers × whitespace, svg/math subtrees with quoted end-tag look-alikes), plain and (≤2 constructs) under three dialects: token list (type, data, Text/AttrKey lower-cased, AttrVal verbatim, HasTemplate) equals the list known by construction; 7 raw-text elements × every content of ≤4 (5) fragments over {<, /, </, name, NAME, namex, <!--, -->, <script, </script, >, space, a, -, ', newline} × 3 tails × 2 start-tag spellings: the text token must end exactly where a transcription of the HTML tokenizer's RCDATA/RAWTEXT/script-data (double-escape) states ends the content; six template dialects × 10 region bodies (quotes, escaped quotes, fake end delimiter) × 10 placements with expected tokens; attribute/tag structure invariants on all byte strings ≤3-5 atoms over the HTML alphabets × dialects",
+		Rule:        "documents = every sequence of ≤2 (3) constructs from a catalogue of ~75 (text incl. stray '<', comments of every closing form, bogus comments, doctype in three cases, CDATA, end tags with whitespace, start tags × 13 attribute forms × closers × whitespace, svg/math subtrees with quoted end-tag look-alikes), plain and (≤2 constructs) under three dialects: token list (type, data, Text/AttrKey lower-cased, AttrVal verbatim, HasTemplate) equals the list known by construction; 7 raw-text elements × every content of ≤4 (5) fragments over {<, /, </, name, NAME, namex, <!--, -->, <script, </script, >, space, a, -, ', newline} × 3 tails × 2 start-tag spellings: the text token must end exactly where a transcription of the HTML tokenizer's RCDATA/RAWTEXT/script-data (double-escape) states ends the content; six template dialects × 10 region bodies (quotes, escaped quotes, fake end delimiter) × 10 placements with expected tokens; attribute/tag structure invariants on all byte strings ≤3-5 atoms over the HTML alphabets × dialects",
 		Assumptions: []string{"an end tag is 'matching' when its name is followed by whitespace, '/' or '>' (HTML tokenizer: appropriate end tag token)", "html.ToHash is covered by C16"},
 		Setup:       c09Setup, Work: c09Work,
 	})
